@@ -1623,6 +1623,8 @@ class ObjectDomain(LazyGenerators, EffectDomain):
             return [val(TOP if got is None else got, st)]
         if tag == "methodcaller" and len(pos) == 1:
             target = pos[0]
+            if is_handle(target) and isinstance(st.get(heap_key(target), None), tuple) and st.get(heap_key(target))[:1] == ("set",) and fn[1] in self.SET_METHODS and len(fn[2]) <= 1 and not fn[3]:
+                return self.set_method(heap_key(target), fn[1], unbox(fn[2][0], st) if fn[2] else None, st)   # methodcaller("update", x)(<a set some object holds>)
             if is_inst(target):
                 got = self.call_method(interp, target, fn[1], list(fn[2]), list(fn[3]), st, fr) if self._method(target[2], fn[1]) is not None else None
                 if got is None:
